@@ -6,6 +6,7 @@ CONSTANTS
   HeadLens = {12, 54, 57}
   UseNil = TRUE
   Scalers = {"ttf", "otto", "true"}
+  Limit = 4
   Orders = {"recommended", "revtag"}
 SPECIFICATION Spec
 INVARIANT InvHeader
@@ -20,4 +21,5 @@ INVARIANT InvWellFormed
 INVARIANT InvLength
 INVARIANT InvPadZero
 INVARIANT InvRoundTrip
+INVARIANT InvAgree
 CHECK_DEADLOCK FALSE
